@@ -34,7 +34,7 @@ BUDGET = {"quick": (2000, 4), "thorough": (30000, 16)}
 NONPLAIN = ["decimal", "fraction", "complex", "tuple", "tuple_empty", "set", "frozenset", "bytearray",
             "memoryview", "range", "uuid1", "uuid3", "uuid5", "uuid_nil", "time", "timedelta",
             "ellipsis", "nil", "notimplemented", "function", "class", "module", "object", "opaque",
-            "decimal_nan"]
+            "decimal_nan", "mappingproxy", "userdict", "chainmap", "userlist", "userstring", "re_compiled_icase"]
 
 _scalars = st.one_of(
     st.none(), st.booleans(), specs.ints, specs.finite_floats,
